@@ -511,12 +511,18 @@ def _build_poly(s):
     return None if s is None else B.build_type(s)
 
 
-def build(spec):
-    """run the program on the real classes -> Extension"""
+def build(spec, serialise_between=False):
+    """run the program on the real classes -> Extension (optionally serialising the extension after
+    every step: the property speaks about the extension as it is at the time of each call)"""
     from hugr import ext, tys
 
     e = ext.Extension(spec["name"], ext.Version.parse(spec["version"]), set(spec["reqs"]))
     for st in spec["steps"]:
+        if serialise_between:
+            try:
+                e.to_json()
+            except Exception:  # noqa: BLE001
+                pass
         k = st[0]
         if k == "type":
             _, n, d, params, bound = st
@@ -1179,6 +1185,14 @@ def oracle(spec):
     if fails:
         return fails
     _roundtrip_checks(e, fails)
+    if fails:
+        return fails
+    # the same program with the extension serialised after every step
+    try:
+        e3 = build(spec, serialise_between=True)
+    except Exception:  # noqa: BLE001
+        return fails
+    _roundtrip_checks(e3, fails, "after-earlier-serialisation:")
     return fails
 
 
